@@ -278,6 +278,7 @@ pub fn run_c07(tier: &str, seed: u64, model: &Model, corpus_lines: Vec<String>, 
     let mut run_one = |c: &CntCase, section: &str, rep: &mut Report, traces: &mut u64, branching: &mut Vec<usize>, layouts: &mut Vec<(u64, u64)>| {
         counter += 1;
         let uid = format!("c07_{}_{}", seed, counter);
+        progress(&c.req());
         rep.evaluations += 1;
         rep.count(&format!("{}/sched:{}", section, c.sched.split(':').next().unwrap()), 1);
         rep.count(&format!("{}/threads:{}", section, c.threads), 1);
@@ -401,5 +402,44 @@ pub fn run_c07(tier: &str, seed: u64, model: &Model, corpus_lines: Vec<String>, 
     }
     rep.traces_validated = traces;
     rep.schedules_enumerated = n_sched;
+    rep
+}
+
+/// C14: the unchecked partition index `min_mer % n_parts` — small inputs with a tiny ceiling so that the
+/// number of partitions exceeds the thread count by far
+pub fn run_partition_cases(tier: &str, seed: u64, model: &Model, work: &str) -> Report {
+    let mut rep = Report::new("C14");
+    rep.rules.push("counting partitions: records counted with 1..4 threads and a ceiling that yields dozens of partitions and several chunks (the unchecked partition index must stay inside the partition table); counts file compared with the Lean counts".into());
+    if sharded() || tier == "replay" {
+        return rep;
+    }
+    let mut rng = Rng::new(seed ^ 0x7714);
+    let n = if tier == "thorough" { 200 } else { 20 };
+    for i in 0..n {
+        let k = rng.range(3, 15) as usize;
+        let nrec = rng.range(2, 30) as usize;
+        let recs = gen_recs(&mut rng, nrec, k, 120);
+        let c = CntCase { recs, k, threads: *rng.pick(&[1usize, 2, 4]), mem: *rng.pick(&[1e-6, 1e-7, 4e-8]), acgt: false, sched: "free".into() };
+        progress(&c.req());
+        rep.evaluations += 1;
+        let mut tr = 0;
+        let mut br = Vec::new();
+        let mut ly = Vec::new();
+        match eval_count(&c, model, work, &format!("c14p_{}_{}", seed, i), &mut tr, &mut br, &mut ly) {
+            None => {
+                if let Some((_, parts)) = ly.last() {
+                    rep.count(&format!("partitions/{}", if *parts as usize > 4 * c.threads { "many" } else { "few" }), 1);
+                    if *parts as usize > c.threads {
+                        rep.nontrivial.insert(c.req());
+                    }
+                }
+            }
+            Some(f) => {
+                if rep.fail_count("partitions", f.class) < 2 {
+                    rep.push_fail("partitions", c.describe(), c.req(), f, c.recs.len());
+                }
+            }
+        }
+    }
     rep
 }
